@@ -114,10 +114,39 @@ def specInsert (j : Json) : R Json := do
     ("ord_inserted", jBool (!chk || ordInserted)), ("ord_after_prefix", jBool (!chk || ordAfterPrefix)),
     ("ord_before_suffix", jBool (!chk || ordBeforeSuffix))]
 
+/-- the same predicates for calls that place several groups: every inserted item carries the boundary `lo` (everything in
+earlier moments of `before` stays before it), `hi` (everything from that moment of `before` on stays after it) and whether it
+may share a moment with the suffix (`EARLIEST` with several operations) -/
+def specPlace (j : Json) : R Json := do
+  let before ← pCircuit (← field j "before")
+  let after ← pCircuit (← field j "after")
+  let items ← listF (fun it => do
+    return ((← natF it "lo"), (← natF it "hi"), (← boolF it "share"), (← pMop (← field it "mop")))) j "inserted"
+  let chk ← boolF j "check_order"
+  let opsOf (m : Mop) : List Op := match m with | .op o => [o] | .mom mm => mm
+  let insOps : List Op := items.flatMap (fun it => opsOf it.2.2.2)
+  let wf := circuitWF after
+  let conserve := sortNat ((allOps after).map (·.id)) == sortNat ((allOps before ++ insOps).map (·.id))
+  let exPairs := before.zipIdx.flatMap (fun (m, i) => m.flatMap (fun a =>
+      (before.drop (i + 1)).flatten.map (fun b => (a, b))))
+  let ordExisting := orderedPairs after exPairs
+  let tagged : List (Nat × Op) := items.zipIdx.flatMap (fun (it, i) => (opsOf it.2.2.2).map (fun o => (i, o)))
+  let insPairs := tagged.zipIdx.flatMap (fun ((ia, a), pos) =>
+      (tagged.drop (pos + 1)).filterMap (fun (ib, b) => if ia ≠ ib then some (a, b) else none))
+  let ordInserted := orderedPairs after insPairs
+  let ordAfterPrefix := items.all (fun it =>
+    orderedPairs after ((before.take it.1).flatten.flatMap (fun e => (opsOf it.2.2.2).map (fun x => (e, x)))))
+  let ordBeforeSuffix := items.all (fun it => it.2.2.1 ||
+    orderedPairs after ((opsOf it.2.2.2).flatMap (fun x => (before.drop it.2.1).flatten.map (fun e => (x, e)))))
+  return Json.mkObj [("wf", jBool wf), ("conserve", jBool conserve), ("ord_existing", jBool (!chk || ordExisting)),
+    ("ord_inserted", jBool (!chk || ordInserted)), ("ord_after_prefix", jBool (!chk || ordAfterPrefix)),
+    ("ord_before_suffix", jBool (!chk || ordBeforeSuffix))]
+
 def handle (op : String) (j : Json) : R Json := do
   match op with
   | "history" => return jList id (← runHistory (← listF pure j "calls"))
   | "spec_insert" => specInsert j
+  | "spec_place" => specPlace j
   | "wf" => return jBool (circuitWF (← pCircuit (← field j "circuit")))
   | _ => throw s!"unknown op {op}"
 
